@@ -67,7 +67,17 @@ def reference(n, imports, ns):
 NESTED = {0: "p0", 1: "a/x", 2: "b/x", 3: "b/p3", 4: "a/p4"}
 
 
+CASE = {0: "p0", 1: "shared", 2: "Shared", 3: "SHARED", 4: "shareD"}     # directories that differ only in letter case
+
+
+INSIDE = {0: "p0", 1: "p0/sub1", 2: "p0/sub1/sub2", 3: "p0/sub3"}      # imported packages that live inside their importer's directory
+
+
 def pkg_dir(i, layout):
+    if layout == "inside":
+        return INSIDE[i]
+    if layout == "case":
+        return CASE[i]
     if layout == "nested":
         return NESTED[i] if i != 0 else "a/p0"
     return "p%d" % i
@@ -82,7 +92,7 @@ def files_for(n, imports, ns, absolute_root=None, with_json=False, layout=None):
         if imports[i]:
             pk += "imports:\n"
             for j in imports[i]:
-                if layout == "nested":
+                if layout in ("nested", "case", "inside"):
                     pk += "  - %s\n" % os.path.relpath(pkg_dir(j, layout), pkg_dir(i, layout))
                 elif absolute_root and (i + j) % 2 == 1:
                     pk += "  - %s/p%d\n" % (absolute_root, j)
@@ -176,6 +186,29 @@ def ns_assignments(n, pairs):
                 yield tuple(a)
 
 
+def depth_family2(quick):
+    """Chains of 10..12 packages with two shortcut edges, in all four list orders: a package first reached along a short path and
+    again along a longer one, with a diamond further down."""
+    out = []
+    for N in ((LIMIT + 1,) if quick else (LIMIT, LIMIT + 1, LIMIT + 2)):
+        chain = [[i + 1] if i + 1 < N else [] for i in range(N)]
+        shortcuts = [(i, j) for i in range(N) for j in range(i + 2, N)]
+        for a in range(len(shortcuts)):
+            for b in range(a + 1, len(shortcuts)):
+                (i1, j1), (i2, j2) = shortcuts[a], shortcuts[b]
+                if i1 == i2:
+                    continue
+                if quick and not (i2 >= j1 or (i1 == 0 and j2 - i2 == 2)):
+                    continue
+                for f1 in (False, True):
+                    for f2 in (False, True):
+                        adj = [list(x) for x in chain]
+                        adj[i1] = [j1, i1 + 1] if f1 else [i1 + 1, j1]
+                        adj[i2] = [j2, i2 + 1] if f2 else [i2 + 1, j2]
+                        out.append((N, adj, "two-shortcuts"))
+    return out
+
+
 def depth_family(quick):
     """Chains of 9..13 packages, and the same chains with one shortcut edge i->j (j>i+1) in both list orders."""
     out = []
@@ -243,7 +276,22 @@ def main(tier):
         if not quick or mask % 4 == 0:
             k += 1
             configs.append((4, [list(reversed(a)) for a in adj], (0, 1, 2, 3), False, "nested"))
-    fam = depth_family(quick)
+    # directories whose names differ only in letter case are different directories: every graph on <= 3 packages, all
+    # namespace assignments (two of them claiming one namespace is a conflict whatever the spelling of their paths)
+    for n in range(2, 4):
+        for adj in graphs(n):
+            for ns in ns_assignments(n, pairs=True):
+                k += 1
+                configs.append((n, adj, ns, k % 60 == 0, "case"))
+    # packages nested in the directory of another package (model files are collected recursively: a directory that is a package
+    # of its own belongs to that package only)
+    for n in range(2, 5 if not quick else 4):
+        for adj in graphs(n):
+            if any(i in a for i, a in enumerate(adj)) or sum(len(a) for a in adj) > 4:
+                continue
+            k += 1
+            configs.append((n, adj, tuple(range(n)), k % 25 == 0, "inside"))
+    fam = depth_family(quick) + depth_family2(quick)
     for idx, (N, adj, kind) in enumerate(fam):
         configs.append((N, adj, tuple(range(N)), idx % (6 if quick else 15) == 0, False))
 
